@@ -181,3 +181,44 @@ func zzC12_tcp_response() {
 		cc.ReleaseMessage(b.resp)
 	}
 }
+
+// C12 on the stream connection: a request handler that replaces the response message (ResponseWriter.SetMessage,
+// which gives the replaced one back) or takes it out (Swap) - whatever the writer holds when the handler returns is
+// written and given back exactly once, nothing is given back twice
+func zzC12_tcp_handler_setmessage() {
+	symGhost(true)
+	nc := &zzNetConn{}
+	op := symChoose("handler-does", 3)
+	var cc *Conn
+	var installed, taken *pool.Message
+	cc = zzNewTCPConn(nc, func(w *responsewriter.ResponseWriter[*Conn], r *pool.Message) {
+		switch op {
+		case 0:
+			_ = w.SetResponse(codes.Content, message.TextPlain, bytes.NewReader([]byte{1}))
+		case 1:
+			installed = cc.AcquireMessage(r.Context())
+			installed.SetCode(codes.Changed)
+			installed.SetToken(r.Token())
+			w.SetMessage(installed)
+			symCover("set-message")
+		case 2:
+			installed = cc.AcquireMessage(r.Context())
+			installed.SetCode(codes.Changed)
+			installed.SetToken(r.Token())
+			taken = w.Swap(installed)
+			symCover("swap")
+		}
+	}, 1024)
+	_ = zzFeed(cc, zzMkFrame(codes.POST, message.Token{0xA1}, []byte{7}))
+	symIdle()
+	symAssert(len(nc.frames) == 1, "the response is written once")
+	if installed != nil {
+		symAssert(symReleased(installed), "the message the handler installed is given back after it was written")
+	}
+	if taken != nil {
+		symAssert(!symReleased(taken), "a message the handler took out of the writer is the handler's")
+		cc.ReleaseMessage(taken)
+	}
+	x, y, z := cc.AcquireMessage(cc.Context()), cc.AcquireMessage(cc.Context()), cc.AcquireMessage(cc.Context())
+	symAssert(x != y && y != z && x != z, "the pool never hands one message to two owners")
+}
